@@ -338,7 +338,8 @@ func (sp *SAMLServiceProvider) SigningContext() *dsig.SigningContext {
 	defer sp.signingContextMu.Unlock()
 
 	signing := sp.spSigningKeyStoreOverride
-	if signing == nil {
+	if signing == nil && sp.SPSigningKeyStore == nil {
+		// fall back to the encryption key only when no signing key is configured at all
 		signing = sp.spKeyStoreOverride
 	}
 	var err error
